@@ -192,6 +192,11 @@ def memory_backends(ctx):
                           addr_pool=[5, 261, 517, 773, 6, 262, 0, 256, 512, 1023, 767]))
         tasks.append(dict(simname=sim, aw=9, dw=66, pre=(), seed=ctx.seed + 1, max_steps=300,
                           addr_pool=[7, 263, 8, 264, 511, 255]))
+        tasks.append(dict(simname=sim, aw=33, dw=4, pre=(), seed=ctx.seed, max_steps=300,
+                          addr_pool=[3, (1 << 32) + 3, (1 << 32), 0, (1 << 33) - 1, (1 << 32) - 1, 259, (1 << 32) + 259]))
+        tasks.append(dict(simname=sim, aw=64, dw=5, pre=(), seed=ctx.seed, max_steps=200,
+                          addr_pool=[9, (1 << 32) + 9, (1 << 63) + 9, (1 << 64) - 1, 1 << 40]))
+        tasks.append(dict(simname=sim, aw=2, dw=3, pre=(), seed=ctx.seed, max_steps=200, style='constenable'))
         tasks.append(dict(simname=sim, aw=3, dw=70, pre=(), seed=ctx.seed, max_steps=200, style='regports'))
         tasks.append(dict(simname=sim, aw=2, dw=3, pre=(), seed=ctx.seed, max_steps=200, style='cond'))
     res = passcheck.pmap(_walk, tasks)
